@@ -254,9 +254,17 @@ def _line_unit(cls):
         i = fresh("i", z3.IntSort())                     # ONE generic sample index: the code treats all samples alike (comprehension / vectorised call)
         made = []                                        # calls that create the sample coordinates
         depth_calls = []
+        def depth_def(a, b):
+            """the postcondition of get_depth_at, PROVED by the `{cls}.get_depth_at` unit, instantiated at (a, b): it defines depth_at, so that code which
+            computes the same depth without calling get_depth_at (a correct vectorisation) still meets the clause below"""
+            if cls == "SparseHeightMap": return depthf(a, b) == sc.val * interp(a, b)
+            inside = AND(a >= 0, a < w.val, b >= 0, b < h.val)
+            return AND(IMP(inside, depthf(a, b) == sc.val * interp(b, a)), IMP(NOT(inside), depthf(a, b) == 0))
         def h_depth(x_, recv, args, kwargs, st_):
             a, b = x_.as_num(st_, args[0]), x_.as_num(st_, args[1]); depth_calls.append((st_.pc, a, b))
+            x_.assume.append(depth_def(a.val, b.val))
             return VNum(z3.IntVal(0), depthf(a.val, b.val), False)
+        ctx.assume(depth_def(xs(i), ys(i)))
         x.contracts[(cls, "get_depth_at")] = h_depth
         def samples(st_, axis, term): return st_.alloc("Samples1D", {"$axis": VStr(axis), "$g": VNum(z3.IntVal(0), term, False)})
         def linspace(x_, args, kwargs, st_, n):
@@ -289,6 +297,16 @@ def _line_unit(cls):
                 return VList([VTuple([st_.heap[a.oid]["$g"] for a in args])])       # the generic element of the zipped sequence
             return orig_iter(name, args, st_, n)
         x.iter_builtin = iter_builtin
+        # arithmetic between a sample array and a number / another sample array is element-wise (numpy broadcasting): done on the generic element
+        orig_binop = x.binop
+        def binop(op, a, b, st_, n=None):
+            def is_s(v): return isinstance(v, VRef) and v.cls == "Samples1D"
+            if is_s(a) or is_s(b):
+                ga = st_.heap[a.oid]["$g"] if is_s(a) else a
+                gb = st_.heap[b.oid]["$g"] if is_s(b) else b
+                return samples(st_, "z", orig_binop(op, ga, gb, st_, n).val)
+            return orig_binop(op, a, b, st_, n)
+        x.binop = binop
         exits = ctx.run(x, f"{cls}._interpolate_line", [m, line], {}, st)
         covers(ctx, exits); never_raises(ctx, exits)
         x1, y1, x2, y2 = [c.val for c in cs]
